@@ -110,6 +110,13 @@ class AnyOf:
         self.mask = mask
 
 
+class StarArr:
+    """`*arr` for an array of symbolic length (only understood by callee contracts written for it)"""
+
+    def __init__(self, arr):
+        self.arr = arr
+
+
 class Path:
     def __init__(self):
         self.conds = []        # list of z3 Bool (path condition)
@@ -1746,6 +1753,9 @@ class Evaluator:
             return list(v)
         if hasattr(v, "concrete_iter"):
             return list(v.concrete_iter())
+        if is_array(v) and is_z3(getattr(v, "n", None)):
+            # f(*arr) with an array of symbolic length: one marker argument standing for all its elements
+            return [StarArr(v)]
         raise Unsupported("iteration over %r" % (v,))
 
     def call(self, fn, args, kwargs, lineno, env=None):
@@ -2033,7 +2043,7 @@ class Env:
 BUILTINS = {"len", "range", "max", "min", "abs", "int", "float", "bool", "enumerate", "zip", "list",
             "tuple", "dict", "set", "isinstance", "hasattr", "getattr", "next", "sorted", "sum",
             "any", "all", "str", "round", "iter", "type", "repr", "frozenset", "reversed", "map",
-            "filter", "globals", "callable", "id", "print", "divmod", "object", "super"}
+            "filter", "globals", "callable", "id", "print", "divmod", "object", "super", "map"}
 EXC_NAMES = {"UserWarning", "ValueError", "KeyError", "IndexError", "AttributeError", "TypeError",
              "NotImplementedError", "Exception", "ImportError", "RuntimeError", "AssertionError",
              "ZeroDivisionError", "DeprecationWarning", "FutureWarning", "LookupError",
